@@ -23,6 +23,10 @@ func init() {
 				r.Rule("R10f", "INDEX-AT-NODE: every position written to the map forest's leaf index is the position expression of a node-store Put in the same function")
 				checkIndexAtNode(p, r, "R10f")
 			}},
+			{ID: "R10h", Statement: "position reads test existence", Run: func(p *Program, r *Report) {
+				r.Rule("R10h", "READ-IN-FOREST: a position read (GetHash) either goes through the keyed node store or gates the walk from a root chosen by arithmetic with an exact existence test of the position against the leaf count")
+				checkReadInForest(p, r, "R10h")
+			}},
 			{ID: "R10g", Statement: "index updates follow every step of a move", Run: func(p *Program, r *Report) {
 				r.Rule("R10g", "INDEX-UPDATE-NOT-COUNTER-GATED: a leaf-index update inside a loop of the map forest is never conditioned on a comparison of that loop's counter (the index must follow the node on every step of a multi-step move)")
 				checkIndexNotCounterGated(p, r, "R10g")
